@@ -93,15 +93,57 @@ def crash_sig(e):
     return "crash:%s@%s" % (type(e).__name__, site)
 
 
+class CaseHang(BaseException):
+    """Raised by the CPU-time watchdog inside a case."""
+
+
+CASE_CPU_LIMIT = float(os.environ.get("VERIF_CASE_CPU", "150"))
+
+
+def _on_cpu_alarm(signum, frame):
+    raise CaseHang()
+
+
 def run_check(mod, case):
-    """check(case) with uncaught-exception classification."""
+    """check(case) with uncaught-exception classification and a watchdog on
+    the *CPU time* of the case (user time of this process, so machine load
+    does not matter): a case that normally needs a fraction of a second and
+    burns CASE_CPU_LIMIT seconds is a busy loop in the code under test - the
+    driver can only interrupt generators that yield."""
+    import signal
+    import threading
+    armed = False
+    if threading.current_thread() is threading.main_thread():
+        try:
+            signal.signal(signal.SIGVTALRM, _on_cpu_alarm)
+            signal.setitimer(signal.ITIMER_VIRTUAL,
+                             getattr(mod, "CASE_CPU_LIMIT", CASE_CPU_LIMIT))
+            armed = True
+        except (ValueError, OSError, AttributeError):
+            armed = False
+    try:
+        return _run_check(mod, case)
+    except CaseHang as e:
+        site = crash_sig(e) or "crash:CaseHang@harness"
+        return bad("busy-loop:" + site.split("@", 1)[1],
+                   "the case used more than %.0f s of CPU time; stack when "
+                   "interrupted:\n%s" % (
+                       getattr(mod, "CASE_CPU_LIMIT", CASE_CPU_LIMIT),
+                       "".join(traceback.format_exception(
+                           type(e), e, e.__traceback__))[-1500:]))
+    finally:
+        if armed:
+            signal.setitimer(signal.ITIMER_VIRTUAL, 0)
+
+
+def _run_check(mod, case):
     try:
         r = mod.check(case)
     except BaselineBroken as e:
         return bad("honest-baseline-fails:" + e.what, e.detail)
     except HarnessError:
         raise
-    except (KeyboardInterrupt, SystemExit, MemoryError):
+    except (KeyboardInterrupt, SystemExit, MemoryError, CaseHang):
         raise
     except BaseException as e:
         sig = crash_sig(e)
